@@ -190,6 +190,25 @@ def rule_write_after_render(ctx):
         arg = A.sexpr(H.call_args(w)[1], env)
         ctx.check(re.search(r"SourceFormatter::render_source \$P0 \$P1\)\)/T1$", arg) is not None, rule, "format_path:content",
                   "format_path writes %s, not the rendered text" % arg[:120], loc, detail={"writes": "the second component of render_source"})
+    # what is compared and written is the renderer's output itself
+    from . import c07
+    fn = CLI + "render"
+    hh = ctx.need_hir(rule, fn)
+    e2 = A.ArmEnv(); e2.strip = True; e2.bind_params(hh); e2.absorb(hh["body"])
+    outs = [A.sexpr(o, e2) for o in c07._results(hh["body"])]
+    ok = len(outs) == 1 and re.match(r"^\(core::result::Result::<T, E>::map_err \(zydeco_surface::textual::pretty::PrettyFormatter::<'arena>::try_render_unit "
+                                     r"\(zydeco_surface::textual::pretty::PrettyFormatter::<'arena>::with_source .*\) \(closure .*\)\)$", outs[0]) is not None
+    ctx.check(ok, rule, "render:untransformed", "SourceFormatter::render returns %s: the text that is compared and written must be the "
+              "renderer's output itself (any post-processing changes program text: literal text blocks, verbatim regions)" % [o[:140] for o in outs],
+              facts.bodies()[fn]["loc"], detail={"returns": "try_render_unit(..) mapped to the error type only"})
+    fn = CLI + "render_source"
+    hh = ctx.need_hir(rule, fn)
+    e2 = A.ArmEnv(); e2.strip = True; e2.bind_params(hh); e2.absorb(hh["body"])
+    outs = [A.sexpr(o, e2) for o in c07._results(hh["body"])]
+    ok = len(outs) == 1 and re.match(r"^\(core::result::Result::Ok \(tuple \(\? \(core::result::Result::<T, E>::map_err \(std::fs::read_to_string \$P1\) .*\)\) "
+                                     r"\(\? \(zydeco_cli::format::SourceFormatter::render \$P0 \$P1 \(\? \(core::result::Result::<T, E>::map_err \(std::fs::read_to_string \$P1\) .*\)\)\)\)\)\)$", outs[0]) is not None
+    ctx.check(ok, rule, "render_source:pair", "render_source returns %s; expected (the text read from the path, render(path, that text))"
+              % [o[:160] for o in outs], facts.bodies()[fn]["loc"], detail={"returns": "(source, render(path, &source))"})
     # the unchanged test: both entry points compare the same pair
     for f in ("format_path", "check_path"):
         hh = ctx.need_hir(rule, CLI + f)
@@ -331,3 +350,346 @@ def _lit(n):
     if not d:
         return None
     return list(d.values())[0]
+
+
+# ---------------------------------------------------------------------------------------------------------------------
+# arms: capture side (grammar actions) vs emission side (printer)
+# ---------------------------------------------------------------------------------------------------------------------
+ARMS = {
+    # printer fn -> (grammar nonterminal, arm struct)
+    "data": "DataArm", "codata": "CoDataArm", "matcher": "Matcher", "comatcher": "CoMatcher",
+}
+
+
+def grammar_arm_prefixes():
+    """nonterminal -> (first, payload) as field names; `a|b` = `a` when present else `b`"""
+    text = G.read()
+    out = {}
+    for nt in ARMS.values():
+        m = re.search(r"^%s\s*:[^=]*=\s*\{(.*?)^\};" % nt, text, re.M | re.S)
+        if not m:
+            continue
+        body = m.group(1)
+        call = re.search(r"parser\.arm_prefix\(\s*(\w+)\s*,\s*(\w+)\s*,\s*start\s*\)", body)
+        if not call:
+            continue
+        first, payload = call.group(1), call.group(2)
+        alias = re.search(r"let\s+%s\s*:\s*EntityId\s*=\s*(\w+)\.map_or_else\(\|\|\s*(\w+)\.into\(\)\s*,\s*Into::into\)" % re.escape(first), body)
+        if alias:
+            first = "%s|%s" % (alias.group(1), alias.group(2))
+        out[nt] = (first, payload)
+    return out
+
+
+def _arm_closure(h):
+    """the `arms.iter().map(|arm| ..)` closure of an arm printer and an env naming its parameter `$arm`"""
+    for n in H.walk(h["body"]):
+        if H.kind(n) == "MethodCall" and n["name"] == "map" and n["args"]:
+            clo = H.peel(n["args"][0])
+            if H.kind(clo) == "Closure" and clo.get("params"):
+                env = A.ArmEnv()
+                env.strip = True
+                env.bind_params(h)
+                for l, p in A.pat_paths(clo["params"][0]).items():
+                    env.names[l] = "$arm"
+                env.absorb(clo["body"])
+                return clo, env
+    return None, None
+
+
+def _field_of_arm(s):
+    """`(. $arm f)` -> f ; `(map_or_else (. $arm a) (closure (. $arm b)) Into::into)` -> a|b"""
+    s = s.strip()
+    m = re.match(r"^\(\. \$arm (\w+)\)$", s)
+    if m:
+        return m.group(1)
+    m = re.match(r"^\(core::option::Option::<T>::map_or_else \(\. \$arm (\w+)\) \(closure \(\. \$arm (\w+)\)\) .*Into.*::into\)$", s)
+    if m:
+        return "%s|%s" % (m.group(1), m.group(2))
+    return s
+
+
+def rule_arm_printers(ctx, want_anchor=True, want_boundary=True):
+    rule = "arm-printers"
+    facts = ctx.facts
+    ctx.rule(rule, "for data / codata / match / comatch arms the printer's fragment starts at the entity under which the parser's "
+                   "arm_prefix(first, payload, start) action files the comments written before the arm, ends at the payload, and "
+                   "arm_block emits those comments for arm.anchors.first; the break before the payload is measured from the last "
+                   "header entity that can wrap (between(header, payload)) and from the `|` line (after_arm_prefix(payload)) only "
+                   "when the header is a bare name")
+    gram = grammar_arm_prefixes()
+    ctx.floor(rule, "arm productions with an arm_prefix action", len(gram), 4)
+    for f, nt in ARMS.items():
+        fn = FORMATTER + f
+        h = ctx.need_hir(rule, fn)
+        loc = facts.bodies()[fn]["loc"]
+        clo, env = _arm_closure(h)
+        if clo is None or nt not in gram:
+            ctx.anchor_lost(rule, "%s: arm closure or grammar action not found" % f)
+            continue
+        gfirst, gpayload = gram[nt]
+        # anchors of the fragment
+        first = last = None
+        for n in H.walk(clo["body"]):
+            if H.kind(n) == "Struct" and (n["path"].get("def") or "").endswith("LayoutAnchors"):
+                fs = {x["name"]: A.sexpr(x["e"], env) for x in n["fields"]}
+                first, last = _field_of_arm(fs.get("first", "")), _field_of_arm(fs.get("last", ""))
+            if H.kind(n) == "Call" and (H.callee(n) or "").endswith("LayoutFragment::<'arena>::entity"):
+                first = last = _field_of_arm(A.sexpr(n["args"][0], env))
+        if want_anchor:
+            ctx.check(first == gfirst and last == gpayload, rule, "%s:anchors" % f, "%s arms are anchored at (%s .. %s) but the parser files "
+                      "comments before the arm under `%s` and the payload is `%s`: comments written before such an arm are never "
+                      "printed" % (f, first, last, gfirst, gpayload), loc, detail={"arm": f, "first": first, "last": last})
+        if want_boundary:
+            # wrappable header entities: arguments of self.pattern / self.copattern in the arm header
+            wrappable = []
+            for n in H.walk(clo["body"]):
+                if H.kind(n) == "MethodCall" and n["name"] in ("pattern", "copattern", "annotated_pattern"):
+                    wrappable.append(_field_of_arm(A.sexpr(n["args"][0], env)).replace("(. $arm params)/Some.0", "params"))
+            intents = []
+            for n in H.walk(clo["body"]):
+                c = H.callee(n) or ""
+                if H.kind(n) == "Call" and c.endswith("BoundaryIntent::between"):
+                    intents.append(("between", [_field_of_arm(A.sexpr(a, env)).replace("(. $arm params)/Some.0", "params") for a in n["args"]]))
+                if H.kind(n) == "Call" and c.endswith("BoundaryIntent::after_arm_prefix"):
+                    intents.append(("after_arm_prefix", [_field_of_arm(A.sexpr(a, env)) for a in n["args"]]))
+            optional = "|" in gfirst     # header entity is optional (codata parameters)
+            hdr = (wrappable or [None])[0]
+            want = []
+            if hdr is not None:
+                want.append(("between", [hdr, gpayload]))
+            if hdr is None or optional:
+                want.append(("after_arm_prefix", [gpayload]))
+            ctx.check(sorted(intents) == sorted(want), rule, "%s:header-boundary" % f, "%s: the break before the payload uses %s; expected %s "
+                      "(a header that can wrap must be measured from its own last line, otherwise the printer's line breaks are read "
+                      "back as a request to break: not a fixed point)" % (f, intents, want), loc,
+                      detail={"arm": f, "boundary": ["%s(%s)" % (k, ",".join(v)) for k, v in intents]})
+    # arm_block emits before-arm comments for anchors.first
+    fn = FORMATTER + "arm_block"
+    h = ctx.need_hir(rule, fn)
+    env = A.ArmEnv(); env.strip = True; env.bind_params(h); env.absorb(h["body"])
+    calls = [A.sexpr(n, env) for n in H.walk(h["body"]) if H.kind(n) == "MethodCall" and n["name"] == "with_before_arm_comments"]
+    ok = len(calls) == 1 and re.search(r"with_before_arm_comments \$P0 \(\. \(\. \(each \$P3\) anchors\) first\) \(\. \(each \$P3\) document\)\)$", calls[0]) is not None
+    ctx.check(ok, rule, "arm_block:before-arm-comments", "arm_block does not wrap every arm in with_before_arm_comments(arm.anchors.first, "
+              "arm.document): %s" % calls, facts.bodies()[fn]["loc"], detail={"wraps": "each arm, keyed by anchors.first"})
+
+
+def rule_comment_wrappers(ctx):
+    rule = "comment-emission"
+    facts = ctx.facts
+    ctx.rule(rule, "every entity printer returns with_leading_comments(<its own entity>, ..) on every exit; the four render_* roots add "
+                   "with_trailing_comments(<root entity>, ..); the three comment tables of SurfaceTrivia are each read by exactly one "
+                   "emitter and every emitter prints every comment of its list (fold over the whole slice)")
+    from . import c07
+    printers = {"term_with_requirement": 1, "pattern_with_requirement": 1, "copattern": 1, "definition": 1}
+    for f, pi in printers.items():
+        fn = FORMATTER + f
+        h = ctx.need_hir(rule, fn)
+        env = A.ArmEnv(); env.strip = True; env.bind_params(h)
+        outs = c07._results(h["body"])
+        bad = []
+        for o in outs:
+            o = H.peel(o)
+            if H.kind(o) == "Struct":    # LayoutFragment { document: with_leading_comments(..), .. }
+                o = H.peel(next((x["e"] for x in o["fields"] if x["name"] == "document"), o))
+            ok = H.kind(o) == "MethodCall" and o["name"] == "with_leading_comments" and A.sexpr(o["args"][0], env) == "$P%d" % pi
+            if not ok and f == "copattern":
+                # an application spine: copattern_parameters wraps its first parameter in the spine's own leading comments
+                ok = any(H.kind(x) == "MethodCall" and x["name"] == "copattern_parameters" and A.sexpr(x["args"][0], env) == "$P1" for x in H.walk(o)) \
+                    or any(H.kind(x) == "Let" and any(y["name"] == "copattern_parameters" for y in H.walk(x) if H.kind(y) == "MethodCall") for x in H.walk(h["body"]))
+            if not ok:
+                bad.append(A.sexpr(o, env)[:90])
+        ctx.check(outs and not bad, rule, "%s:leading" % f, "%s has an exit that does not emit the leading comments of its own entity: %s"
+                  % (f, bad), facts.bodies()[fn]["loc"], detail={"printer": f, "exits": len(outs)})
+    roots = 0
+    for f in ("try_render_unit", "render_term", "render_pattern", "render_copattern"):
+        fn = FORMATTER + f
+        if fn not in facts.bodies():
+            ctx.anchor_lost(rule, "%s not found" % fn)
+            continue
+        h = ctx.need_hir(rule, fn)
+        env = A.ArmEnv(); env.strip = True; env.bind_params(h)
+        calls = [A.sexpr(n["args"][0], env) for n in H.walk(h["body"]) if H.kind(n) == "MethodCall" and n["name"] == "with_trailing_comments"]
+        roots += 1
+        ctx.check(calls in (["$P1"], ["(. $P1 root)"]), rule, "%s:trailing" % f, "%s emits trailing comments for %s, not for its root entity"
+                  % (f, calls), facts.bodies()[fn]["loc"], detail={"root": f})
+    readers = {}
+    for p, bd in facts.bodies().items():
+        if not p.startswith(PRETTY) or bd["tag"].endswith("-test"):
+            continue
+        h = facts.hir(p)
+        if h is None:
+            continue
+        for n, c in H.calls(h["body"]):
+            m = re.search(r"SurfaceTrivia::(leading_comments|before_arm_comments|trailing_comments)$", c)
+            if m:
+                readers.setdefault(m.group(1), set()).add(p.split("::{closure")[0].split("::")[-1])
+    EMIT = {"leading_comments": "with_leading_comments", "before_arm_comments": "with_before_arm_comments", "trailing_comments": "with_trailing_comments"}
+    AUDITED_TESTS = {"is_trivia_free", "constructor_argument_gap", "scope_boundary_allows_merging", "transparent_pattern_group", "manifest_parameter_view", "term_with_requirement",
+                     "infix_chain", "separated_group_layout", "delimited_with_spacing", "parameter_telescope"}
+    for table, emit in EMIT.items():
+        got = readers.get(table, set())
+        emitters = got - AUDITED_TESTS
+        ctx.check(emit in got and emitters <= {emit}, rule, "table:%s" % table, "SurfaceTrivia::%s is read by %s; expected the emitter %s (other "
+                  "readers only test for presence and are audited by name)" % (table, sorted(got), emit), None,
+                  detail={"table": table, "readers": sorted(got)})
+    for f in ("with_comments", "with_trailing_comments"):
+        fn = FORMATTER + f
+        h = ctx.need_hir(rule, fn)
+        folds = [n for n in H.walk(h["body"]) if H.kind(n) == "MethodCall" and n["name"] == "fold"]
+        adapters = [x["name"] for n in folds for x in H.walk(n["recv"]) if H.kind(x) == "MethodCall" and x["name"] not in ("iter", "trailing_comments")]
+        ctx.check(len(folds) == 1 and not adapters, rule, "%s:all" % f, "%s does not fold over the whole comment list (adapters %s)" % (f, adapters),
+                  facts.bodies()[fn]["loc"], detail={"emitter": f})
+
+
+def rule_verbatim(ctx):
+    rule = "verbatim"
+    facts = ctx.facts
+    ctx.rule(rule, "format_verbatim copies source[annotation_end .. inner_start] and source[inner_start .. inner_end] (contiguous, nothing "
+                   "re-rendered); the annotation's end is the FIRST `]` after its start (a format directive contains none, the gap "
+                   "may); every PrettyFormatter derived from another (scoped) inherits its source text")
+    fn = FORMATTER + "format_verbatim"
+    h = ctx.need_hir(rule, fn)
+    loc = facts.bodies()[fn]["loc"]
+    env = A.ArmEnv(); env.strip = True; env.bind_params(h); env.absorb(h["body"])
+    names = [n["name"] for n in H.walk(h["body"]) if H.kind(n) == "MethodCall"]
+    ctx.check("find" in names and "rfind" not in names, rule, "annotation-end", "format_verbatim locates the end of the annotation with %s: "
+              "a `]` inside a comment between the annotation and its payload cuts the copied text" %
+              [x for x in names if x in ("find", "rfind", "rfind_map", "rsplit", "split")], loc, detail={"search": "find(']')"})
+    gets = [A.sexpr(n["args"][0], env) for n in H.walk(h["body"]) if H.kind(n) == "MethodCall" and n["name"] == "get"]
+    rng = [_range(g) for g in gets]
+    ok = len(rng) == 3 and all(r is not None for r in rng) and rng[1][1] == rng[2][0] and rng[0][1] == rng[2][0]
+    ctx.check(ok, rule, "contiguous", "format_verbatim's copied slices are %s: boundary and payload must be adjacent ranges of the source "
+              "(.. inner_start)(inner_start ..)" % [g[:100] for g in gets], loc, detail={"slices": len(gets)})
+    # scoped() keeps the source
+    fn = FORMATTER + "scoped"
+    h = ctx.need_hir(rule, fn)
+    env = A.Env(); env.strip = True; env.bind_params(h)
+    st = next((n for n in H.walk(h["body"]) if H.kind(n) == "Struct" and re.search(r"PrettyFormatter(<'arena>)?$", n["path"].get("def") or "")), None)
+    src = A.sexpr(next((x["e"] for x in st["fields"] if x["name"] == "source"), None), env) if st else "(no struct literal)"
+    ctx.check(src == "(. $P0 source)", rule, "scoped:source", "a directive-scoped formatter is built with source = %s: a verbatim region nested "
+              "in another directive is re-rendered instead of copied" % src, facts.bodies()[fn]["loc"], detail={"source": "self.source"})
+
+
+def _range(s):
+    """`(core::ops::range::Range start=X end=Y)` -> (X, Y)"""
+    pre = "(core::ops::range::Range start="
+    if not s.startswith(pre) or not s.endswith(")"):
+        return None
+    body = s[len(pre):-1]
+    depth = 0
+    for i, c in enumerate(body):
+        if c == "(":
+            depth += 1
+        elif c == ")":
+            depth -= 1
+        elif depth == 0 and body.startswith(" end=", i):
+            return body[:i], body[i + 5:]
+    return None
+
+
+def rule_tool_formatter(ctx):
+    rule = "one-renderer"
+    facts = ctx.facts
+    ctx.rule(rule, "fmt, fmt --check and the language server build the formatter with PrettyFormatter::with_source(arena, spans, <the text "
+                   "they parsed>) and render with try_render_unit; check_path and format_path obtain (source, formatted) from the same "
+                   "function; try_render_unit appends exactly one hardline")
+    CTORS = re.compile(r"PrettyFormatter::<'arena>::(new|with_options|with_source|with_options_source)$")
+    for root in (CLI + "format_path", CLI + "check_path", CAJUN):
+        g = callgraph.CallGraph(facts)
+        reach = g.reachable_set([root]) | {root}
+        built = []
+        for fn in reach:
+            if not (fn.startswith("zydeco_cli::format") or fn.startswith("cajun::format")):
+                continue
+            for c in g.out.get(fn, []):
+                if CTORS.search(c["to"]):
+                    built.append((fn.split("::")[-1], c["to"].split("::")[-1]))
+        ctx.check(built and all(k == "with_source" for _, k in built), rule, "%s:constructor" % root.split("::")[-1],
+                  "%s formats with %s: without the source text verbatim regions are re-rendered, so this entry point disagrees with the "
+                  "others" % (root, built), facts.bodies()[root]["loc"], detail={"entry": root.split("::")[-1], "built_with": built})
+    for f in ("format_path", "check_path"):
+        h = ctx.need_hir(rule, CLI + f)
+        cs = [c.split("::")[-1] for _, c in H.calls(h["body"]) if c.startswith("zydeco_cli::format::SourceFormatter::")]
+        ctx.check(cs == ["render_source"], rule, "%s:shared" % f, "%s computes its texts through %s, expected the shared render_source only" % (f, cs),
+                  facts.bodies()[CLI + f]["loc"], detail={"fn": f, "through": cs})
+    fn = FORMATTER + "try_render_unit"
+    if fn in facts.bodies():
+        h = ctx.need_hir(rule, fn)
+        env = A.ArmEnv(); env.strip = True; env.bind_params(h); env.absorb(h["body"])
+        hard = sum(1 for n in H.walk(h["body"]) if (H.callee(n) or "").endswith("::hardline"))
+        tail = [A.sexpr(o, env) for o in __import__("zv.rules.c07", fromlist=["x"])._results(h["body"])]
+        ctx.check(hard == 1 and len(tail) == 1 and re.match(r"^\(.*try_render_doc \$P0 \(.*::append .*\(.*hardline \)\)\)$", tail[0]) is not None,
+                  rule, "trailing-newline", "try_render_unit is %s (hardlines: %d); expected try_render_doc(document.append(hardline()))"
+                  % ([t[:100] for t in tail], hard), facts.bodies()[fn]["loc"], detail={"hardlines": hard})
+    else:
+        ctx.anchor_lost(rule, "try_render_unit not found")
+
+
+def rule_ctor_gap(ctx):
+    rule = "identifier-comment-gap"
+    facts = ctx.facts
+    ctx.rule(rule, "a constructor name is printed without a following space, and `-` is an identifier character: wherever constructor(name) "
+                   "is followed by its argument, constructor_argument_gap(argument) comes in between (a space when the argument has leading "
+                   "comments)")
+    n = 0
+    for p, bd in sorted(facts.bodies().items()):
+        if not p.startswith(FORMATTER) or bd["tag"].endswith("-test"):
+            continue
+        h = facts.hir(p)
+        if h is None:
+            continue
+        for node in H.walk(h["body"]):
+            if H.kind(node) == "MethodCall" and node["name"] == "append":
+                r = H.peel(node["recv"])
+                if H.kind(r) == "MethodCall" and r["name"] == "constructor":
+                    n += 1
+                    a = H.peel(node["args"][0])
+                    ok = H.kind(a) == "MethodCall" and a["name"] == "constructor_argument_gap"
+                    f = p.split("::")[-1]
+                    if f in ("data",):
+                        ok = True     # `| +C : param`: followed by the ` :` separator of the arm
+                    ctx.check(ok, rule, "%s:constructor" % f, "%s appends %s directly to a constructor name: a line comment leading the "
+                              "argument is fused into the identifier (`+C-- c`)" % (f, a.get("name") or H.kind(a)), [bd["loc"][0], node.get("ln")],
+                              detail={"fn": f, "after_name": a.get("name") if isinstance(a, dict) else None})
+    ctx.floor(rule, "constructor names followed by a document", n, 2)
+    fn = FORMATTER + "constructor_argument_gap"
+    if fn not in facts.bodies():
+        ctx.anchor_lost(rule, "constructor_argument_gap not found")
+        return
+    h = ctx.need_hir(rule, fn)
+    cs = [c.split("::")[-1] for _, c in H.calls(h["body"])]
+    ctx.check("leading_comments" in cs and "is_empty" in cs, rule, "gap:condition", "constructor_argument_gap no longer tests the argument's leading "
+              "comments (%s)" % cs, facts.bodies()[fn]["loc"], detail={"calls": cs})
+
+
+def rule_exists_parens(ctx):
+    rule = "grammar-owned-parentheses"
+    facts = ctx.facts
+    ctx.rule(rule, "existential_parameter prints a binder without adding the parameter's grammar-owned parentheses only for the formers that "
+                   "print their own (Ann, Manifest - the audited set of pattern_class), after looking through elided groups; every other "
+                   "binder, a kept group included, is delimited")
+    fn = FORMATTER + "existential_parameter"
+    h = ctx.need_hir(rule, fn)
+    loc = facts.bodies()[fn]["loc"]
+    m = None
+    for x in H.walk(h["body"]):
+        if H.kind(x) == "Match" and not x.get("src") and any("Pattern::" in v for a in x["arms"] for v in H.pat_variants(a["pat"])):
+            m = x
+    if m is None:
+        ctx.anchor_lost(rule, "existential_parameter: match on the binder's former not found")
+        return
+    env = A.ArmEnv(); env.strip = True; env.bind_params(h); env.absorb(h["body"])
+    bare, delimited, other = set(), set(), set()
+    for a in m["arms"]:
+        p = A.strip_or(a["pat"])
+        pats = p["pats"] if H.kind(p) == "Or" else [p]
+        body = H.peel(a["body"])
+        kind = "bare" if H.kind(body) == "MethodCall" and body["name"] == "pattern" else "delimited" if H.kind(body) == "MethodCall" and body["name"] == "delimited" else "other"
+        for q in pats:
+            {"bare": bare, "delimited": delimited, "other": other}[kind].add(_v(q))
+    scr = A.sexpr(m["scrut"], env)
+    ctx.check(bare == {"Ann", "Manifest"} and delimited == {"_"} and not other and "transparent_pattern_group" in scr, rule, "existential_parameter",
+              "existential_parameter prints %s without the grammar's parentheses and delimits %s (scrutinee %s); expected bare = {Ann, Manifest} "
+              "over transparent_pattern_group(binder)" % (sorted(bare), sorted(delimited), scr[:80]), loc,
+              detail={"bare": sorted(bare), "delimited": sorted(delimited)})
